@@ -182,6 +182,10 @@ func walk(m *meta.Module) {
 					if t.Format().Single().String() == "leafref" {
 						_ = t.Resolve()
 					}
+					if len(t.Base()) > 0 {
+						// a search of everything derived from the bases ends
+						_ = meta.FindIdentity(t.Base(), "no such identity")
+					}
 				}
 				rec(k, depth+1)
 			}
@@ -474,6 +478,22 @@ func C14(c *core.Ctx) {
 		{"cycle of 4 behind a chain", map[string][]string{"a": {"b"}, "b": {"c"}, "c": {"d"}, "d": {"e"}, "e": {"b"}}},
 		{"cycle not through the main module", map[string][]string{"a": {"b", "x"}, "x": {}, "b": {"c"}, "c": {"b"}}},
 		{"import of a missing module", map[string][]string{"a": {"b"}, "b": {"nosuch"}}},
+	}
+	// layers of two modules, each importing both modules of the next layer: 2^depth import paths, 2*depth modules
+	{
+		e := map[string][]string{"a": {"l0x", "l0y"}}
+		const depth = 40
+		for l := 0; l < depth; l++ {
+			for _, s := range []string{"x", "y"} {
+				name := fmt.Sprintf("l%d%s", l, s)
+				if l+1 < depth {
+					e[name] = []string{fmt.Sprintf("l%dx", l+1), fmt.Sprintf("l%dy", l+1)}
+				} else {
+					e[name] = []string{}
+				}
+			}
+		}
+		graphs = append(graphs, graph{"40 layers of two modules that import the whole next layer", e})
 	}
 	for i := 0; i < c.N(20, 400); i++ {
 		r := rng.Fork()
